@@ -256,6 +256,17 @@ func (c *Ctx) Finish(verifDir string, kf *KnownFile, start time.Time, seed int) 
 		os.Remove(replay)
 	}
 
+	// development aid: every obligation with its position, appended to the named file
+	if p := os.Getenv("GRPCHANLINT_DUMP"); p != "" {
+		if f, err := os.OpenFile(p, os.O_APPEND|os.O_CREATE|os.O_WRONLY, 0o644); err == nil {
+			for _, o := range c.Obs {
+				b, _ := json.Marshal(o)
+				f.Write(append(b, '\n'))
+			}
+			f.Close()
+		}
+	}
+
 	// evidence
 	var samples []interface{}
 	perRuleSample := map[string]int{}
